@@ -9,7 +9,7 @@ Replies print polynomials normalised (`coefficients()`).  Above a work estimate 
 (the implementation-side oracles still run).
 -/
 namespace TF.Drv.PolyDiv
-open TF TF.Proto TF.Model.PolyD TF.Gen
+open TF TF.Proto TF.Model.Poly TF.Model.PolyD TF.Gen
 
 /-- a field as seen by the protocol: arithmetic, parser and printer of coefficient lists -/
 structure Fld (α : Type) where
@@ -26,6 +26,9 @@ def STAGE2_MULTIPLE : Nat := 4
 
 /-- model work limit (coefficient products); above it the model answers `skip` -/
 def WORK_LIMIT : Nat := 40000000
+
+/-- largest final NTT domain of `formal_power_series_inverse_newton` the model executes -/
+def FPS_DOMAIN_LIMIT : Nat := 32768
 
 variable {α : Type}
 
@@ -79,7 +82,9 @@ def generic (X : Fld α) (op : String) (args : List Arg) : Option String :=
       pure (reply ((xgcd F x y).map fun (g, a, b) => okPs X [g, a, b]))
   | "fps_newton", [p, .nat n] => do
       let p ← X.parse p
-      if (n + p.length) * (n + p.length) > WORK_LIMIT then pure "skip" else
+      -- the final NTT domain of the Newton iteration; the model skips above `FPS_DOMAIN_LIMIT`
+      let full := nextPowerOfTwo (2 ^ (Nat.log2 (nextPowerOfTwo n) + 1) * (degree F p).toNat)
+      if full > FPS_DOMAIN_LIMIT then pure "skip" else
       pure (reply ((fpsInverseNewton F N FORMAL_POWER_SERIES_INVERSE_CUTOFF p n).map fun g => okP X (modXToTheN g n)))
   | "mod_x_n", [p, .nat n] => do
       let p ← X.parse p
